@@ -370,14 +370,15 @@ void cmb_process_timers_clear(struct cmb_process *pp)
                                                       listhead);
 
         if (pa->type == CMI_PROCESS_AWAITABLE_TIME) {
-            /* Recycle the tag */
+            /* Recycle the tag, after noting what it refers to */
+            const uint64_t handle = pa->handle;
             cmi_slist_pop(awaits);
             cmi_mempool_free(&cmi_process_awaitabletags, pa);
 
             /* Cancel the corresponding wakeup event */
-            cmb_assert_debug(pa->handle != UINT64_C(0));
-            cmb_logger_info(stdout, "Cancels timeout event %" PRIu64, pa->handle);
-            const bool found = cmb_event_cancel(pa->handle);
+            cmb_assert_debug(handle != UINT64_C(0));
+            cmb_logger_info(stdout, "Cancels timeout event %" PRIu64, handle);
+            const bool found = cmb_event_cancel(handle);
             cmb_assert_debug(found);
         }
         else {
